@@ -4,6 +4,7 @@
 //!   (more sub-commands are added by the other modules)
 
 mod ast;
+mod attack;
 mod codec;
 mod driver;
 mod fncases;
@@ -123,6 +124,7 @@ fn main() {
     let code = match args.get(1).map(|s| s.as_str()) {
         Some("net") => cmd_net(&args[2..]),
         Some("fn") => fncases::cmd_fn(&args[2..]),
+        Some("attack") => attack::cmd_attack(&args[2..]),
         _ => {
             eprintln!("usage: aqua-harness net --in <histories.ndjson> --out <trace.ndjson>");
             2
